@@ -16,7 +16,7 @@ import jax.tree_util as tu
 import numpy as onp
 from probdiffeq import ivpsolve, probdiffeq
 
-from sim import configs, flowseam, monitors, scen
+from sim import configs, embed, flowseam, monitors, scen
 from sim.history import Recorder, digest_of
 
 PROPERTY = "C08"
@@ -98,7 +98,12 @@ def drive(sc, b):
             from probdiffeq.backend import linalg
 
             ci.marginalise(rv)
-            ci.revert(rv, solve_triu=linalg.solve_triu)
+            # reverting needs a non-singular marginal of y for the exact triangular solver (and the pseudo-inverse
+            # solver truncates legitimately small directions of such badly scaled probes): probe only when well posed
+            y = ci.marginalise(rv)
+            sd = onp.sqrt(onp.abs(onp.diag(embed.normal_np(y)[1])))
+            if onp.all(sd > 1e-12 * (onp.max(sd) + 1e-300)) and onp.all(sd > 0):
+                ci.revert(rv, solve_triu=linalg.solve_triu)
             ci.merge(cj)
             ci.preconditioner_apply()
             ci.apply_flat(rv.mean_flat)
